@@ -38,7 +38,15 @@ def run_route(name: str, e, x, p, warm=()):
         raise ValueError(name)
 
     def use(obj, q):
-        if name in ("PL", "PE", "PA", "DL", "DE", "DA"):
+        if name in ("DL", "DE", "DA"):
+            # half of the time in the bare-number spelling, when the point is just that number
+            from .wire import coords
+            d = coords(q)
+            vs = sorted(e._variable_names)
+            if len(d) == 1 and len(vs) == 1 and vs[0] in d and (len(repr(q)) + len(name)) % 2:
+                return obj.at(d[vs[0]])
+            return obj.at(q)
+        if name in ("PL", "PE", "PA"):
             return obj.at(q)
         if name in ("FCL", "FCE"):
             return obj.component(x).at(q)
